@@ -140,6 +140,9 @@ func (self *BinaryConv) doRecurse(ctx context.Context, s string, jp int, desc *t
 					return jp, errSyntax(s, jp)
 				}
 				return ret, writeNumber(p, t, nv)
+
+			} else {
+				return ret, newError(meta.ErrDismatchType, "json string can't convert to thrift "+desc.Type().String(), nil)
 			}
 
 		case types.V_ARRAY:
